@@ -198,6 +198,15 @@ def size(t):
     return 1 + sum(size(c) for c in children(t))
 
 
+def _atoms(t):
+    if t['k'] == 'atom':
+        return [t]
+    out = []
+    for c in children(t):
+        out.extend(_atoms(c))
+    return out
+
+
 def has_rev_over_rep(t, under_rev=False):
     if t['k'] == 'rev':
         under_rev = True
@@ -520,6 +529,18 @@ def gen_cases(rng, tier, ctx):
         if 'rep' not in kinds(c['pt']) or not X.vol_ok_tree(c['pt'], children):
             continue
         c['kind'] = 'vol'
+        if rng.random() < 0.5:
+            # something with a window behind (and a declaration around) the volatile part: the interesting positions
+            chs = sorted({ch for a in _atoms(c['pt']) for ch in a['chs']})
+            tail = {'k': 'atom', 'cls': 'const', 'dur': e_c(rng.choice(DURS)), 'chs': chs,
+                    'ms': [['m%d' % rng.randrange(NMEAS), e_c(rng.choice(TIMES)), e_c(rng.choice(TIMES))]]}
+            c['pt'] = {'k': 'seq', 'ms': g.decls([]), 'subs': [c['pt'], tail]}
+            if rng.random() < 0.3:
+                c['pt'] = {'k': 'rev', 'body': c['pt']}
+            if c['mm'] is not None:
+                for n in meas_names(c['pt']):
+                    if n is not None:
+                        c['mm'].setdefault(n, n)
         c['vol'] = sorted({'n0', 'n1'} & free_params(c['pt']))
         if not c['vol']:
             continue
